@@ -329,3 +329,27 @@ def is_projection_set(ctx, body, tree, src_pat, comp):
     segs = seq_of(ctx.facts, body, tree)
     return segs is not None and len(segs) == 1 and segs[0].kind == 'each' and not segs[0].conds and _match(_core(segs[0].src), src_pat) and \
         _core(segs[0].elem) == ('field', ITEM, comp)
+
+
+def check_segmentation_flag(ctx, bodies, what):
+    """every CharString::new(text, flag) in `bodies` (and their closures) receives the grapheme flag UNCHANGED: a parameter, a
+    configuration field or a captured variable -- not a computed boolean such as `use_graphemes && !s.is_ascii()` ("\\r\\n" is one
+    ASCII grapheme cluster of two code points: two sites that segment the same text differently disagree on every index)"""
+    n = 0
+    for b0 in bodies:
+        for b in [b0] + closures_in(ctx, b0):
+            for t in b.calls(r'CharString::new$'):
+                if len(t.args) < 2:
+                    continue
+                n += 1
+                f = _core(_sym(b, t.args[1]))
+                f2 = f
+                if f[0] == 'upvar':
+                    f2 = _core(resolve_upvars(ctx, b, f))
+                plain = f2[0] in ('arg', 'const') or (f2[0] == 'field' and f2[1][0] in ('arg', 'field', 'upvar', 'var')) or \
+                    (f2[0] == 'var' and len(_defs_of(b, f2[2])[0]) <= 1) or f2[0] == 'upvar'
+                ctx.require(plain, b, 'segmentation-flag|' + what, '%s: CharString::new(.., flag) at line %d receives the grapheme flag unchanged' % (what, t.span['line']),
+                            '%s: CharString::new at line %d is given the computed flag `%s`: this site segments the text differently from every other site '
+                            '(e.g. "\\r\\n" is one ASCII grapheme cluster), so character indices, operation lists and lengths no longer agree' % (
+                                what, t.span['line'], __import__('analysis.sym', fromlist=['show_in']).show_in(b, f2)[:80]), t.span)
+    return n
